@@ -47,6 +47,23 @@ CHECKS = {
         technique="Lean 4 proof (checker table vs lowering table, all type terms) + exhaustive operator-cell correspondence through the real compiler",
         ref="§5 C02",
     ),
+    "C04": dict(
+        text=("Proof (Lean 4) about DDP.Spec.checkProgram, the statement of the static rules for the core language (typeOf over all "
+              "expression forms with the operand rules of typechecker.go, scopes, loop depth, final return): rule by rule, what the "
+              "property lists is rejected — undeclared names (undeclared_name, undeclared_in_initialiser), redeclaration in one scope "
+              "(redeclaration), names after their block (block_scope_ends), initialisers and assigned values outside exactly {equal, "
+              "numeric for numeric, anything into a Variable} (initialiser_rule as an iff, wrong_initialiser, wrong_assignment), "
+              "non-Wahrheitswert conditions, non-numeric loop bounds, wrong operands, wrong argument types, values for Referenz "
+              "parameters, wrong returned values, Verlasse/Fahre fort outside loops, missing final return; and a rejected statement "
+              "rejects every block around it (block_rejects). Tie: random well-formed programs and per program AST mutants (a literal "
+              "of another type at a random expression position, undeclared / out-of-scope names, redeclaration, break outside loop, "
+              "missing return) whose verdict the Lean checker decides, plus text-level variants ill-formed by construction (wrong "
+              "article, Konstante assigned / compound-assigned / passed as Referenz incl. elements and characters, return outside a "
+              "function): the front end must reject what the rules reject (property) and accept what they accept (validates the rules)."),
+        note=TB + "Visibility across modules is covered under C10; aliases/overloads and generics are outside the statement of the rules.",
+        technique="Lean 4 statement of the static rules with rejection theorems + two-directional verdict correspondence on generated programs and mutants",
+        ref="§5 C04",
+    ),
     "C05": dict(
         text=("Proof (Lean 4) about the heap ledger DDP.Ledger (the contract of ddp_reallocate(pointer, oldSize, newSize) as a state "
               "machine over the set of live blocks): a released block cannot be released or resized again (no_double_release), a "
